@@ -82,8 +82,12 @@ func (p *Program) findFuncLit(ct *Contract) (*FuncInfo, *ast.FuncLit) {
 func loopOrdinals(body *ast.BlockStmt) map[ast.Node]int {
 	m := map[ast.Node]int{}
 	n := 0
+	ns := 0
 	ast.Inspect(body, func(x ast.Node) bool {
 		switch x.(type) {
+		case *ast.SelectStmt:
+			ns++
+			m[x] = ns
 		case *ast.ForStmt, *ast.RangeStmt:
 			n++
 			m[x] = n
@@ -198,6 +202,7 @@ func (e *Exec) run(ct *Contract, fi *FuncInfo, lit *ast.FuncLit) {
 		body, ftype, recvList = fi.Decl.Body, fi.Decl.Type, fi.Decl.Recv
 	}
 	fr.loopOrd = loopOrdinals(body)
+	e.callOrd = callOrdinals(body)
 	// symbolic receiver and parameters
 	var recv *Term
 	if recvList != nil && len(recvList.List) > 0 && sig.Recv() != nil {
@@ -671,4 +676,33 @@ func (e *Exec) refInv(st *State, v Term, depth int) {
 			}
 		}
 	}
+}
+
+// callOrdinals numbers the call sites of the function under verification per callee name (source order), so that
+// ghost updates can be attached to "the 2nd call of Unlock".
+func callOrdinals(body *ast.BlockStmt) map[*ast.CallExpr]string {
+	m := map[*ast.CallExpr]string{}
+	cnt := map[string]int{}
+	ast.Inspect(body, func(x ast.Node) bool {
+		if _, ok := x.(*ast.FuncLit); ok {
+			return false
+		}
+		call, ok := x.(*ast.CallExpr)
+		if !ok {
+			return true
+		}
+		name := ""
+		switch f := unparen(call.Fun).(type) {
+		case *ast.Ident:
+			name = f.Name
+		case *ast.SelectorExpr:
+			name = f.Sel.Name
+		}
+		if name != "" {
+			cnt[name]++
+			m[call] = fmt.Sprintf("%s:%d", name, cnt[name])
+		}
+		return true
+	})
+	return m
 }
